@@ -22,9 +22,19 @@ def read_events_for_entries(dfs, d, stamps, eid0, names=None, extract=True):
                 segs.append(dict(lba=sg[1], len=sg[2]))
         return dict(e="read", cmd=cmd, id=eid0, g=g, start=e["start"], nsec=e["length"] // 256, rem=e["length"] % 256,
                     kind=d.variant, rc=rc, err=err, segs=segs, foreign=foreign, name=e["name"].decode("latin1"))
-    for e in d.entries:
-        nm = "%s%c.%s" % (d.colon, e["dir"], e["name"].decode("latin1"))
-        o = common.run(base + ["type", "--binary", nm], timeout=60)
+    for k, e in enumerate(d.entries):
+        # every way of reaching the file: fully qualified, or with drive and/or directory taken from --drive / --dir
+        dch, nm_ = chr(e["dir"]), e["name"].decode("latin1")
+        form = (k + eid0) % 4
+        if form == 0:
+            argv = base + ["type", "--binary", "%s%s.%s" % (d.colon, dch, nm_)]
+        elif form == 1:
+            argv = base + ["--drive", d.drive, "--dir", dch, "type", "--binary", nm_]
+        elif form == 2:
+            argv = base + ["--dir", dch, "type", "--binary", d.colon + nm_]              # drive given, directory from --dir
+        else:
+            argv = base + ["--drive", d.drive, "--dir", "Z", "type", "--binary", "%s.%s" % (dch, nm_)]   # directory given, drive from --drive
+        o = common.run(argv, timeout=60)
         ev.append(mk(e, "type-b", o.rc if o.rc is not None else -9, 1 if o.err.strip() else 0, o.out))
     if extract:
         dest = d.path + ".x"
@@ -116,7 +126,8 @@ def run(chk, tier, seed):
                 ns = start + 1 - nsec - gap if ents else start + 1 - nsec
                 if ns < low + (cnt - len(ents)):
                     ln, nsec, ns = 0, 0, max(low, start)
-                ents.append(mkdisc.entry("F%02d" % i, "$" if i % 4 else "A", False, 0, 0, ln, ns if nsec else max(low, min(ns, start))))
+                # every name exists in two directories, so a lookup that picks the wrong directory delivers the wrong body
+                ents.append(mkdisc.entry("F%02d" % (i // 2), "$" if i % 2 else "A", False, 0, 0, ln, ns if nsec else max(low, min(ns, start))))
                 if nsec:
                     start = ns - 1
                 i += 1
@@ -131,6 +142,42 @@ def run(chk, tier, seed):
             d = discs.build(variant, ents, sub, "g%d" % n, salt=salt, nsectors=800 if variant != "OPUS" else None, **kw)
             st = mkdisc.Stamps(); st.add(salt, d.nsectors)
             evs = read_events_for_entries(dfs, d, st, 300000 + n)
+            shutil.rmtree(sub, ignore_errors=True)
+            return evs
+
+        def job_mixed(n):
+            """two-sided interleaved image and MMB whose surfaces hold different file-system variants"""
+            sub = os.path.join(scratch, "m%d" % n)
+            os.makedirs(sub, exist_ok=True)
+            kinds = [("DFS", "WDFS"), ("WDFS", "DFS"), ("WDFS", "WDFS")][n % 3]
+            surfs, allents = [], []
+            for si, variant in enumerate(kinds):
+                salt = 200 + 2 * n + si
+                ents = [mkdisc.entry("S%dF%02d" % (si, i), "$", False, 0, 0, 300 + i, 390 - 2 * i) for i in range(12 if variant == "DFS" else 40)]
+                if variant == "DFS":
+                    img = mkdisc.surface_dfs(400, salt, title=b"MIX%d" % si, entries=ents)
+                else:
+                    img = mkdisc.surface_wdfs(400, salt, title=b"MIX%d" % si, entries1=ents[:20], entries2=ents[20:])
+                surfs.append((img, ents, salt))
+            container = n % 2
+            if container == 0:
+                path = mkdisc.write(os.path.join(sub, "mixed.dsd"), mkdisc.container_interleaved(surfs[0][0], surfs[1][0], 10))
+                drives = ["0", "2"]
+            else:
+                big = [mkdisc.blank_surface(800, 0) for _ in surfs]
+                for b, (img, ents, salt) in zip(big, surfs):
+                    b[:len(img)] = img
+                    # the slot is an 80-track surface: re-stamp the rest with the same salt
+                    for l in range(400, 800):
+                        b[l * 256:(l + 1) * 256] = mkdisc.stamp(salt, l)
+                path = mkdisc.write(os.path.join(sub, "mixed.mmb"), mkdisc.container_mmb({0: bytes(big[0]), 1: bytes(big[1])}))
+                drives = ["0", "2"]
+            evs = []
+            for (img, ents, salt), drive in zip(surfs, drives):
+                st = mkdisc.Stamps(); st.add(salt, 800)
+                d = discs.Disc(path=path, entries=ents, colon=":%s." % drive, drive=drive, origin=0, vol_len=400 if container == 0 else 800,
+                               nsectors=400 if container == 0 else 800, salt=salt, variant="mixed-%s-%s" % kinds, img=img)
+                evs += read_events_for_entries(dfs, d, st, 500000 + n * 10 + int(drive), extract=True)
             shutil.rmtree(sub, ignore_errors=True)
             return evs
 
@@ -159,6 +206,7 @@ def run(chk, tier, seed):
         res = common.pmap(job_disc, list(enumerate(inext)))
         res += common.pmap(job_layout, list(enumerate(lay)))
         res += common.pmap(job_big, list(range(nbig)))
+        res += common.pmap(job_mixed, list(range(6 if quick else 24)))
         res += common.pmap(job_render, list(enumerate(groups)))
         for evs in res:
             events += evs
